@@ -282,7 +282,7 @@ class IdentityLinearOperator(ConstantDiagLinearOperator):
         new_kwargs = {}
         for arg in self._args:
             if hasattr(arg, "to"):
-                if hasattr(arg, "dtype") and arg.dtype.is_floating_point == dtype.is_floating_point:
+                if dtype is not None and hasattr(arg, "dtype") and arg.dtype.is_floating_point == dtype.is_floating_point:
                     new_args.append(arg.to(dtype=dtype, device=device))
                 else:
                     new_args.append(arg.to(device=device))
@@ -293,6 +293,7 @@ class IdentityLinearOperator(ConstantDiagLinearOperator):
                 new_kwargs[name] = val.to(dtype=dtype, device=device)
             else:
                 new_kwargs[name] = val
-        new_kwargs["device"] = device
-        new_kwargs["dtype"] = dtype
+        # to(device) without a dtype (or to(dtype) without a device) keeps the other one
+        new_kwargs["device"] = self.device if device is None else device
+        new_kwargs["dtype"] = self.dtype if dtype is None else dtype
         return self.__class__(*new_args, **new_kwargs)
